@@ -70,11 +70,14 @@ class Run:
     def __init__(self, cfg, chooser):
         self.cfg = cfg; self.chooser = chooser
         self.events = []; self.choices = []      # (kind, chosen, n)
+        self.dtrace = []; self.cbdepth = 0; self.lastsub = None; self.npull = 0
         self.clock = 0.0
         self.notes = []
 
     def choose(self, kind, n, info=None):
         if n <= 1:
+            obs = getattr(self.chooser, "observe", None)
+            if obs is not None: obs(kind)
             return 0
         c = self.chooser(kind, n, info)
         if not (0 <= c < n):
@@ -141,6 +144,10 @@ class Run:
                 idx = [it[1][0] for it in func.items]; tag = func.items[0][1][1]
                 lo, hi = min(idx), max(idx) + 1
                 R.ev(ev="Submit", c=tag, lo=lo, hi=hi)
+                if R.cbdepth == 0:
+                    R.dtrace.append(dict(ev="Sub", lo=lo, hi=hi))
+                else:
+                    R.lastsub = (lo, hi)
                 item = (func, callback, f, tag, lo, hi)
                 s.pending.append(item)
                 hang = any(i in R.cur["hang"] for i in idx) and tag == R.callno
@@ -182,9 +189,18 @@ class Run:
                 except BaseException as e:
                     f.e = e; ok = False
                 f.done = True
-                if cb is not None:
-                    cb(f)
+                R.cbdepth += 1; saved = R.lastsub; R.lastsub = None
+                try:
+                    if cb is not None:
+                        cb(f)
+                finally:
+                    R.cbdepth -= 1
+                sub = R.lastsub; R.lastsub = saved
                 R.ev(ev="CbEnd", c=tag, lo=lo, hi=hi, ok=ok)
+                P = R.p
+                R.dtrace.append(dict(ev="Cb", c=tag + 1, lo=lo, ok=ok, sub=sub is not None, slo=sub[0] if sub else -1,
+                                     shi=sub[1] if sub else -1, pulled=R.npull,
+                                     nd=getattr(P, "n_dispatched_tasks", 0), nc=getattr(P, "n_completed_tasks", 0)))
 
         be = Ctl()
         self.be = be
@@ -287,6 +303,7 @@ class Run:
                         R.ev(ev="PullStop", c=s.c, th=1)
                         raise StopIteration
                     i = s.i; s.i += 1
+                    if s.c == R.callno: R.npull += 1
                     R.ev(ev="Pull", c=s.c, i=i, th=1)
                     return delayed(task)(i, s.c)
 
@@ -296,6 +313,8 @@ class Run:
             idle[0] = 0
             kind = None; ei = -1
             gen = None
+            R.npull = 0; nres = -1
+            R.dtrace.append(dict(ev="CS"))
             per_call = cfg["managed"] == "per_call"
             inside = False
             try:
@@ -305,7 +324,7 @@ class Run:
                 if cfg["mode"] == "list":
                     for x in r:
                         R.ev(ev="Yield", c=x[0], i=x[1])
-                    kind = "returned"
+                    kind = "returned"; nres = len(r)
                 else:
                     gen = r
                     cons = cs.get("cons", "drain")
@@ -332,7 +351,7 @@ class Run:
                             gen.close()
                             kind = "closed"; break
                         if act == 1:
-                            R.ev(ev="Close")
+                            R.ev(ev="Close"); R.dtrace.append(dict(ev="Close"))
                             gen.close(); kind = "closed"; break
                         if act == 2:
                             # probe: call the object again while the generator is alive (empty input)
@@ -343,10 +362,10 @@ class Run:
                             except RuntimeError:
                                 R.ev(ev="Rejected")
                             continue
-                        R.ev(ev="Next")
+                        R.ev(ev="Next"); R.dtrace.append(dict(ev="Next"))
                         try:
                             x = next(gen)
-                            R.ev(ev="Yield", c=x[0], i=x[1])
+                            R.ev(ev="Yield", c=x[0], i=x[1]); R.dtrace.append(dict(ev="Y", i=x[1]))
                         except StopIteration:
                             kind = "returned"; break
             except TaskError as e:
@@ -367,6 +386,7 @@ class Run:
                 except BaseException as e:
                     kind = "other:exit:" + type(e).__name__
             R.ev(ev="End", kind=kind, i=ei)
+            R.dtrace.append(dict(ev="End", kind=kind, n=nres))
             if kind == "hang":
                 break
             # late completions of this call, delivered before the next call starts
